@@ -14,7 +14,7 @@
     SyncIsExecuting on/off, UpdateOffset, UpdateInterval; [c_fx c = false] is the pinned code).
     Whether a full scan is due follows from the times in the history.
     Hypotheses are boolean functions of the history (evaluated on the run). *)
-From LMD Require Import C03.Filter C03.ComposeProofs C03.Model C03.Proofs C03.WcProofs C03.ConvProofs.
+From LMD Require Import C03.Filter C03.ComposeProofs C03.Model C03.Proofs C03.WcProofs C03.ConvProofs C03.IterProofs.
 Open Scope Z_scope.
 
 (** compose_ts_exact: the filter built by composeTimestampFilter selects exactly
@@ -129,13 +129,40 @@ Theorem C03_convergence_one_tick :
     Forall2 (fun cr o => cr = norm c (cur o)) (t_c (svcs s')) (t_b (svcs s')).
 Proof. exact convergence_tick_thm. Qed.
 
-(** FULL STATEMENT of convergence, proved only in the part above
-    ([C03_convergence_one_cycle] = the case m <= 149 of it):
-      with m = number of distinct last_check values of stale objects below the
-      threshold, ceil(m/149) cycles as above (each with its full scan due, i.e.
-      more than 60 s apart) make the cache equal to the backend.
-    The cut itself ([ts_lines]: first 149 timestamps) is in the model and in the
-    stream; the induction over the cycles is not done. *)
+(** convergence (full statement): let the first of [n >= 1] consecutive complete
+    cycles collect [m] distinct last_check values in its full scan. If every cycle
+    runs on the quiet backend with its full scan due ([cycles_ok]: window passes
+    the last change; a scan that fetched something stores its time, so the next
+    cycle has to be more than 60 s later) and [m <= 149 * n], i.e.
+    [n >= ceil(m/149)], then afterwards every host and service row equals the
+    backend - whatever happened before (aborted cycles, gaps, commands). *)
+Theorem C03_convergence :
+  forall c t0 hs ss tps evs cs,
+    let s := run c (init_st c t0 hs ss tps) evs in
+    let s' := run_cycles c s cs in
+    0 <= c_off c -> init_ok c hs = true -> init_ok c ss = true ->
+    hist_ok conv_ev_ok c (init_st c t0 hs ss tps) evs = true ->
+    integrity_hyp c s = true -> det_hyp s = true ->
+    cycles_ok c s cs = true ->
+    match cs with
+    | [] => False
+    | (f, _) :: _ => (length (miss_of c f (hosts s)) <= 149 * length cs)%nat /\
+                     (length (miss_of c f (svcs s)) <= 149 * length cs)%nat
+    end ->
+    Forall2 (fun cr o => cr = norm c (cur o)) (t_c (hosts s')) (t_b (hosts s')) /\
+    Forall2 (fun cr o => cr = norm c (cur o)) (t_c (svcs s')) (t_b (svcs s')).
+Proof. exact convergence_iter_thm. Qed.
+
+(** each cycle removes at least 149 timestamps from what the next scan collects *)
+Theorem C03_convergence_progress :
+  forall c from until now t b' thr',
+    0 <= c_off c -> forallb (obj_hyp c) (t_b t) = true ->
+    Forall2 (fun cr o => In cr (map (norm c) (versions o))) (t_c t) (t_b t) -> Forall (binv c) (t_b t) ->
+    forallb (fun o => pairwise det_ok (versions o)) (t_b t) = true ->
+    cyc_ok c until now t = true ->
+    let t' := upd_table c from until now t in
+    (length (missing b' thr' (t_c t') (t_b t')) <= length (miss_of c from t) - 149)%nat.
+Proof. exact progress_missing. Qed.
 
 (** timeperiods: a refresh that is answered stores the backend's values *)
 Theorem C03_timeperiods_refresh :
@@ -178,6 +205,24 @@ Example C03_example_convergence :
   rows_equal c (t_c (hosts s')) (t_b (hosts s')) = true.
 Proof. vm_compute. repeat split. Qed.
 
+(** 160 hosts on a last_update backend are acknowledged inside a window that an
+    aborted periodicUpdate loses; the first cycle's scan collects 160 timestamps,
+    cuts the filter at 149 and repairs 149 hosts, the second cycle (70 s later)
+    repairs the rest *)
+Example C03_example_convergence_cut :
+  let c := mkCfg false true false 3 7 false in
+  let hs := map (fun i => (mkRow (100 + 3 * Z.of_nat i) (100 + 3 * Z.of_nat i) [0;0;1;1;0] 1200 0 [0] [0] 0, [0%nat])) (seq 0 160) in
+  let evs := map (fun i => EMut false i (mkMut 1001 false true [0;1;1;1;0] 1200 [1] [0] 0)) (seq 0 160)
+             ++ [ETick 1007 1007 AbStatus] in
+  let cs := [(1007, 1080); (1080, 1150)] in
+  let s0 := init_st c 1000 hs [] [1] in
+  let s := run c s0 evs in
+  init_ok c hs = true /\ hist_ok conv_ev_ok c s0 evs = true /\ integrity_hyp c s = true /\ det_hyp s = true /\
+  cycles_ok c s cs = true /\ length (miss_of c 1007 (hosts s)) = 160%nat /\
+  length (filter (fun r => r_ver r =? 1) (t_c (hosts (run_cycles c s [(1007, 1080)])))) = 149%nat /\
+  rows_equal c (t_c (hosts (run_cycles c s cs))) (t_b (hosts (run_cycles c s cs))) = true.
+Proof. vm_compute. repeat split. Qed.
+
 Print Assumptions C03_compose_ts_exact.
 Print Assumptions C03_row_integrity.
 Print Assumptions C03_row_integrity_every_moment.
@@ -187,4 +232,6 @@ Print Assumptions C03_no_regress.
 Print Assumptions C03_window_complete.
 Print Assumptions C03_convergence_one_cycle.
 Print Assumptions C03_convergence_one_tick.
+Print Assumptions C03_convergence.
+Print Assumptions C03_convergence_progress.
 Print Assumptions C03_timeperiods_refresh.
